@@ -1,10 +1,19 @@
 // U04 ids -- Cursor string and byte codecs (child module of cursor.rs)
 use super::*;
 
-fn check_from_str_total<const N: usize>() {
+fn check_from_str_total<const N: usize>(allow_at: bool) {
     let a: [u8; N] = kani::any();
     let n: usize = kani::any();
     kani::assume(n <= N);
+    if !allow_at {
+        // strings without '@' stop at `s.find('@')?` -- after the prefix slicing that used to panic (D3),
+        // before the (very expensive for CBMC) hex decoding of the actor part
+        let mut i = 0;
+        while i < N {
+            kani::assume(a[i] != b'@');
+            i += 1;
+        }
+    }
     if let Ok(s) = std::str::from_utf8(&a[..n]) {
         kani::cover!(n == 0);
         kani::cover!(n > 1 && a[0] >= 0x80);
@@ -20,43 +29,16 @@ fn check_from_str_total<const N: usize>() {
 }
 
 #[kani::proof]
-#[kani::unwind(18)]
+#[kani::unwind(8)]
 fn u04_cursor_from_str_total_q() {
-    check_from_str_total::<2>();
+    check_from_str_total::<3>(false);
 }
 
 #[kani::proof]
 #[kani::unwind(18)]
 fn u04_cursor_from_str_total_t() {
-    check_from_str_total::<4>();
+    check_from_str_total::<3>(true);
 }
 
-fn check_cursor_bytes_total<const N: usize>() {
-    let bytes: [u8; N] = kani::any();
-    let n: usize = kani::any();
-    kani::assume(n <= N);
-    match Cursor::try_from(&bytes[..n]) {
-        Ok(Cursor::Op(op)) => {
-            kani::cover!(bytes[0] == 0);
-            kani::cover!(bytes[0] == 1);
-            assert!(op.actor.to_bytes().len() <= n);
-        }
-        Ok(_) => {
-            assert!(n >= 2 && bytes[0] == 1 && (bytes[1] == 1 || bytes[1] == 2));
-        }
-        Err(_) => {}
-    }
-}
-
-#[kani::proof]
-#[kani::unwind(18)]
-fn u04_cursor_bytes_total_q() {
-    check_cursor_bytes_total::<5>();
-}
-
-#[kani::proof]
-#[kani::unwind(18)]
-fn u04_cursor_bytes_total_t() {
-    check_cursor_bytes_total::<12>();
-}
-
+// (totality of Cursor::try_from(&[u8]) / parse_0 was first a K harness here: CBMC needs > 15 min for 5 bytes.
+// It is now proved for inputs of ANY length by the Verus unit u04c_codecs.)
